@@ -211,6 +211,43 @@ namespace {
 }
 
 
+namespace impl {
+	#ifndef CPPCMS_WIN_NATIVE
+	static std::string path_from_current_directory(std::string const &path)
+	{
+		if(path.empty() || path[0]=='/')
+			return path;
+		std::vector<char> buf(256);
+		char *wd = 0;
+		while((wd=getcwd(&buf.front(),buf.size()))==0 && errno==ERANGE)
+			buf.resize(buf.size()*2);
+		if(!wd)
+			throw cppcms_error(errno,"getcwd failed");
+		return std::string(wd) + "/" + path;
+	}
+	#endif
+	///
+	/// The file server is created with the first request. A daemon has changed its directory to / by then, so
+	/// a relative document root (like the default ".") or alias path would be looked up from the file system root.
+	/// They mean the directory the service is started in.
+	///
+	static void make_file_server_paths_absolute(json::value &settings)
+	{
+		#ifndef CPPCMS_WIN_NATIVE
+		if(!settings.get("daemon.enable",false) || !settings.get("daemon.chroot","").empty())
+			return;
+		settings.set("file_server.document_root",path_from_current_directory(settings.get("file_server.document_root",".")));
+		if(settings.find("file_server.alias").type()==json::is_array) {
+			json::array &alias = settings["file_server"]["alias"].array();
+			for(unsigned i=0;i<alias.size();i++) {
+				if(alias[i].find("path").type()==json::is_string)
+					alias[i].set("path",path_from_current_directory(alias[i].get<std::string>("path")));
+			}
+		}
+		#endif
+	}
+}
+
 impl::cached_settings const &service::cached_settings()
 {
 	return *impl_->cached_settings_;
@@ -232,6 +269,7 @@ void service::setup()
 	impl_->cache_pool_.reset(new cppcms::cache_pool(settings()));
 	impl_->session_pool_.reset(new cppcms::session_pool(*this));
 	if(settings().get("file_server.enable",false)) {
+		impl::make_file_server_paths_absolute(*impl_->settings_);
 		int flags = app::synchronous;
 		if(settings().get("file_server.async",false)) {
 			flags = app::asynchronous;
